@@ -166,6 +166,11 @@ impl Hist {
                 ledger::violation(to, format!("{}:{}@{}", from, what, op), msg.clone());
             }
         }
+        if self.own_prop == "C03" && what == "no-panic-on-full" && prop != "C03" {
+            // in a C03 run of the history engines: a new key added to a full container without a panic
+            ledger::violation("C03", format!("{}@{}", what, op), msg.clone());
+            self.failed = true;
+        }
         let mut dual_own = false;
         for (from, o, to) in &self.dual {
             if *from == prop && *o == op && *to == self.own_prop {
@@ -482,5 +487,21 @@ pub fn drive<I: Iterator>(mut it: I, style: usize, j: usize, len0: usize) -> (Ve
             }
             (v, all, None)
         }
+    }
+}
+
+/// A sink that accepts `left` bytes and then fails: formatting into it must return `Err` (not panic) and must
+/// leave nothing behind that a later rendering could pick up.
+pub struct Bounded {
+    pub left: usize,
+}
+impl std::fmt::Write for Bounded {
+    fn write_str(&mut self, s: &str) -> std::fmt::Result {
+        if s.len() > self.left {
+            self.left = 0;
+            return Err(std::fmt::Error);
+        }
+        self.left -= s.len();
+        Ok(())
     }
 }
